@@ -317,6 +317,10 @@ def _plugin_cases(tier):
         for p in pairs:
             for st in ("plain", "uni", "comment"):
                 cases.append({"kind": "newline", "nl": nl, "names": p, "style": st, "F": list(CATS)})
+    # a format-command that fails in different ways: the result must be the unformatted but complete edit
+    for mode in ("exit1-empty", "exit1-prefix", "exit0-garbage", "exit3-full", "exit1-stderr-only"):
+        for p in pairs[:3]:
+            cases.append({"kind": "fmtfail", "mode": mode, "names": p, "F": ["create", "fix", "trim"]})
     # a process whose locale encoding is not UTF-8 (cold interpreter, LC_ALL=C without UTF-8 mode): files are UTF-8 regardless
     for p in pairs[:4]:
         for F in (list(CATS), ["create", "fix"]):
@@ -342,6 +346,8 @@ def _plugin_file(c):
     if kind == "newline":
         src = build_file([(c["names"], c["style"]), (["none"], "plain")])
         return src.replace("\n", c["nl"])
+    if kind == "fmtfail":
+        return build_file([(c["names"], "plain"), (["none"], "comment")])
     if kind == "locale":
         return build_file([(c["names"], c["style"]), (["none"], "comment")])
     if kind == "encoding":
@@ -395,8 +401,19 @@ def _judge_plugin(c):
 
     src = _plugin_file(c)
     pp = '[tool.inline-snapshot]\nformat-command="cat"\n' if c["kind"] == "fmtcmd" else ""
+    extra = {}
+    if c["kind"] == "fmtfail":
+        import sys
+
+        pp = '[tool.inline-snapshot]\nformat-command="%s fmt_fail.py %s"\n' % (sys.executable, c["mode"])
+        extra["fmt_fail.py"] = ("import sys\nmode = sys.argv[1]\ntext = sys.stdin.read()\n"
+                                "if mode == 'exit1-empty':\n    sys.stderr.write('error: cannot format\\n'); sys.exit(1)\n"
+                                "if mode == 'exit1-stderr-only':\n    sys.stderr.write(text); sys.exit(1)\n"
+                                "if mode == 'exit1-prefix':\n    sys.stdout.write(''.join(text.splitlines(True)[:3])); sys.exit(1)\n"
+                                "if mode == 'exit0-garbage':\n    sys.stdout.write('def (:\\n'); sys.exit(0)\n"
+                                "if mode == 'exit3-full':\n    sys.stdout.write(text); sys.exit(3)\n")
     codec = {"bom": "utf-8-sig", "latin-1": "latin-1", "cp1252": "cp1252"}[c["enc"]] if c["kind"] == "encoding" else "utf-8"
-    d = plugin.mk_project({"test_something.py": src.encode(codec), "pyproject.toml": pp})
+    d = plugin.mk_project(dict({"test_something.py": src.encode(codec), "pyproject.toml": pp}, **extra))
     try:
         if c["kind"] == "locale":
             r = plugin.cold_session(d, ["--inline-snapshot=" + ",".join(c["F"])],
@@ -429,7 +446,7 @@ def _judge_plugin(c):
     cats = []
     if c["kind"] == "import":
         cats = [(SITES.get(n) or PLUGIN_SITES[n])[3] for n in c["names"]] + [None]
-    elif c["kind"] in ("newline", "encoding", "locale"):
+    elif c["kind"] in ("newline", "encoding", "locale", "fmtfail"):
         cats = [SITES[n][3] for n in c["names"]] + [None]
     else:
         cats = [SITES[n][3] for n in c["names"]] + [SITES[c["names"][0]][3]]
